@@ -328,7 +328,14 @@ def to_events(p, obs, attach=False):
     base = {"ok": True, "err": "", "addrs": [], "idx": 0, "said": "none", "rpc": -1, "rline": -1, "code": -1,
             "patched": [-1], "bt": [-1], "tick": -1, "panic": False, "nums_kept": True, "gone": True,
             "alive": True, "running": True, "dr_armed": False, "cfa_off": -1, "fi_ret": -1, "stale": 0}
+    exited_seen = False
     for o in obs:
+        ret = (o.get("res") or {}).get("ret") if o.get("ev") == "obs" else None
+        if o.get("ev") == "obs" and (any(h.get("hook") == "exit" for h in o.get("hooks", []))
+                                     or (isinstance(ret, dict) and ret.get("kind") == "exit")):
+            exited_seen = True
+        if o.get("ev") == "released" and exited_seen:
+            continue          # the program ran to its end under the debugger: nothing was released
         if o.get("ev") == "released":
             dr = o.get("dr7") or {}
             armed = [t for t, v in dr.items() if isinstance(v, int) and (v & 0xFF) != 0]
